@@ -21,6 +21,8 @@ VARIANTS = {
     "plain2": ("gcc", "-std=c99 -O2 -g -DNDEBUG", ["CO_SSDO_N=2"]),
     "ubsan": ("gcc", "-std=c99 -O1 -g -fno-omit-frame-pointer -fsanitize=undefined -fno-sanitize=alignment -fno-sanitize-recover=all", []),
     "cov":   ("gcc", "-std=c99 -O0 -g --coverage", []),
+    # MemorySanitizer (clang only): stack and harness are plain C and fully instrumented, libc is covered by the interceptors
+    "msan":  ("clang-14", "-std=c99 -O1 -g -fno-omit-frame-pointer -fsanitize=memory -fsanitize-memory-track-origins=2 -fno-sanitize-recover=all", []),
 }
 
 
